@@ -72,18 +72,23 @@ def run(ctx, chk):
     me = ipf.arg_object(st, 'joy')
     val = S(8, 'value')
     ipo = absint.Interp(facts, sym_facts=inv.sym_facts, opaque=[J + 'get_value'])
+    from .. import bvproof as _bp
     sel = {}
     for r in ipo.run(J + 'set_value', [me, val], st):
         for e in r.state.events:
             if e[0] == 'store' and e[2][-1][1] in ('select_direction', 'select_action'):
-                sel.setdefault(e[2][-1][1], set()).add(e[3])
+                sel.setdefault(e[2][-1][1], []).append((e[3], r.state.env))
     for field, bit in (('select_direction', 0x10), ('select_action', 0x20)):
         want = O(1, 'eq', O(8, 'and', val, C(8, bit)), C(8, 0))
-        if sel.get(field) == {want}:
-            chk.ok('C17.2', 'polarity:' + field, sample={field: '(value & %#x) == 0' % bit})
+        # on every path the stored flag equals (value & bit) == 0 under that path's condition (however it is decoded)
+        got = sel.get(field, [])
+        wrong = [v for v, env in got if not (v == want or (T.is_int(v) and (
+            env.const_of(O(1, 'eq', v, want)) == 1 or _bp.equal_under(v, want, env, 1) is True)))]
+        if got and not wrong:
+            chk.ok('C17.2', 'polarity:' + field, sample={field: '(value & %#x) == 0' % bit, 'stores': len(got)})
         else:
             chk.fail('C17.2', 'polarity:' + field, '%s := %s, expected (value & %#x) == 0' % (
-                field, sorted(fmt(x) for x in sel.get(field, [])), bit), file, None)
+                field, sorted(set(fmt(x) for x in (wrong or [])))[:4], bit), file, None)
     # get_value composition per selection
     st = ipf.new_state()
     me = ipf.arg_object(st, 'joy')
@@ -143,24 +148,26 @@ def run(ctx, chk):
     if combos != {(0, 0), (0, 1), (1, 0), (1, 1)}:
         chk.fail('C17.2', 'get_value:combos', 'selection combinations covered by get_value: %s' % sorted(combos), file, None)
     # ---- rule 3: edge detector
+    # get_value as a function of the four fields (its own paths, merged), so that "the lines before / after" are what
+    # the register really reads in the state before / after the operation - not two unrelated samples
+    adt_j = facts['adts'][OW]
+    elems = {f_['name']: ('f', i, f_['name'], f_['ty'], OW) for i, f_ in enumerate(adt_j['fields'])}
+    st = ipf.new_state()
+    me = ipf.arg_object(st, 'joy')
+    gv_paths = [(r.state.env, r.ret) for r in ipf.run(J + 'get_value', [me], st) if r.status == 'ok' and r.ret is not None]
+    FIELDS = (('direction_state', 8), ('action_state', 8), ('select_direction', 1), ('select_action', 1))
     for fn, args in ((J + 'press_button', lambda st_: [ipo.arg_object(st_, 'joy'), S(0, 'button')]),
                      (J + 'set_value', lambda st_: [ipo.arg_object(st_, 'joy'), S(8, 'value')])):
         st = ipo.new_state()
         rs = ipo.run(fn, args(st), st)
-        # the latch condition as a Boolean function of the two samples of the input lines (get_value before / after),
-        # compared bit-precisely with "some line went from 1 to 0".  For a button press the domain is restricted to
-        # what a press can do (C17.1/C17.2: lines only go down).
         from .. import bvproof
         from ..bdd import BDD, BV, TermBV, Unsupported
         key = 'edge:' + fn.split('::')[-1]
-        m = BDD()
-        conv = TermBV(m)
-        P, N = S(8, 'lines_before'), S(8, 'lines_after')
-        vp, vn = conv(P), conv(N)
-        latch_c = nolatch_c = 0
         latch_paths = 0
         flag_bad = None
         shape_bad = None
+        verdict = None
+        npaths = 0
         try:
             for r in rs:
                 if r.status == 'unreachable':
@@ -168,23 +175,60 @@ def run(ctx, chk):
                 if r.status != 'ok':
                     shape_bad = shape_bad or '%s can diverge (%s %s)' % (fn, r.status, r.detail)
                     continue
-                latch = [e for e in r.state.events if e[0] == 'store' and e[2][-1][1] == 'next_interrupt']
-                calls = [e for e in r.state.events if e[0] == 'call' and e[1] == J + 'get_value']
-                if len(calls) < 2:
-                    if latch:
-                        shape_bad = shape_bad or 'the latch is stored on a path that does not sample the lines before and after'
-                    ren = {}
-                else:
-                    ren = {calls[0][3]: P, calls[-1][3]: N}
-                _, _, K = bvproof.setup(r.state.env, m, conv, ren, only={'lines_before', 'lines_after'})
+                npaths += 1
+                evs = r.state.events
+                latch = [e for e in evs if e[0] == 'store' and e[2][-1][1] == 'next_interrupt']
+                calls = [e for e in evs if e[0] == 'call' and e[1] == J + 'get_value']
+                m = BDD()
+                conv = TermBV(m, bvproof._known(r.state.env))
+
+                def gv_at(state):
+                    ren = {fld(nm, bits): state[nm] for nm, bits in FIELDS}
+                    acc = BV.const(m, 8, 0)
+                    for env_g, ret_g in gv_paths:
+                        _, _, Kg = bvproof.setup(env_g, m, conv, ren)
+                        acc = BV.mux(m, Kg, conv(bvproof.subst(ret_g, ren)), acc)
+                    return acc
+                init = {nm: fld(nm, bits) for nm, bits in FIELDS}
+                fin = {}
+                for nm, bits in FIELDS:
+                    v = ipo.read(r.state, ('O', 'joy'), (elems[nm],))
+                    fin[nm] = v if (v is not None and T.is_int(v)) else None
+                if any(v is None for v in fin.values()):
+                    shape_bad = shape_bad or 'the state after the operation is not readable'
+                    continue
+                g0, g1 = gv_at(init), gv_at(fin)
+                # samples taken by the function itself: the first before any state change, the last after all of them
+                stores_i = [i for i, e in enumerate(evs) if e[0] == 'store' and e[2][-1][1] in dict(FIELDS)]
+                calls_i = [i for i, e in enumerate(evs) if e[0] == 'call' and e[1] == J + 'get_value']
+                for ci in calls_i:
+                    before = not stores_i or ci < stores_i[0]
+                    after = not stores_i or ci > stores_i[-1]
+                    if before:
+                        conv.memo[evs[ci][3]] = g0
+                    elif after:
+                        conv.memo[evs[ci][3]] = g1
+                    else:
+                        shape_bad = shape_bad or 'the lines are sampled between two state changes'
+                _, _, K = bvproof.setup(r.state.env, m, conv)
+                fell = ((g0 & ~g1) & 0x0f).nonzero()
                 if latch:
                     latch_paths += 1
                     v = latch[-1][3]
                     if not (v[0] == 'agg' and v[2][0] == C(8, 16)):
                         flag_bad = 'latch is set to %s, expected the joypad request (0x10)' % fmt(v)
-                    latch_c = m.OR(latch_c, K)
+                    bad = m.AND(K, m.NOT(fell))
+                    what = 'no line falls but the interrupt latch is set'
                 else:
-                    nolatch_c = m.OR(nolatch_c, K)
+                    bad = m.AND(K, fell)
+                    what = 'a line falls but the interrupt latch is not set'
+                if bad != 0 and verdict is None:
+                    w = m.witness(bad)
+                    from .. import valsem
+                    verdict = '%s: input lines %#x -> %#x (%s): %s' % (
+                        fn.split('::')[-1], valsem.eval_bv(m, g0, w) & 0xf, valsem.eval_bv(m, g1, w) & 0xf,
+                        ', '.join('%s=%#x' % (k_.split('.')[-1], v_) for k_, v_ in sorted(w.items())
+                                  if isinstance(k_, str) and (k_.startswith('joy.') or k_ == 'value')), what)
         except Unsupported as e:
             chk.error('C17.3 %s: outside the bit-vector fragment: %s' % (key, e.why))
             continue
@@ -193,26 +237,11 @@ def run(ctx, chk):
         if shape_bad or not latch_paths:
             chk.fail('C17.3', key, '%s: %s' % (fn, shape_bad or 'the interrupt latch is never set'), file, None)
             continue
-        lowp, lown = vp & 0x0f, vn & 0x0f
-        fell = (lowp & ~lown).nonzero()
-        dom = 1
-        if fn.endswith('press_button'):
-            dom = m.NOT((lown & ~lowp).nonzero())        # no line rises
-        both = m.AND(dom, m.AND(latch_c, nolatch_c))
-        if both != 0:
-            chk.error('C17.3 %s: the latch decision is not a function of the two samples' % key)
-            continue
-        miss = m.AND(dom, m.AND(fell, m.NOT(latch_c)))
-        spur = m.AND(dom, m.AND(m.NOT(fell), latch_c))
-        if miss != 0 or spur != 0:
-            w = m.witness(miss if miss != 0 else spur)
-            chk.fail('C17.3', key, '%s: input lines %#x -> %#x: %s' % (
-                fn.split('::')[-1], w.get('lines_before', 0) & 0xf, w.get('lines_after', 0) & 0xf,
-                'a line falls but the interrupt latch is not set' if miss != 0 else
-                'no line falls but the interrupt latch is set'), file, None)
+        if verdict:
+            chk.fail('C17.3', key, verdict, file, None)
         else:
-            chk.ok('C17.3', key, sample={'function': fn, 'latch set iff': '(before & !after & 0x0f) != 0',
-                                         'domain': 'lines only fall' if fn.endswith('press_button') else 'all line pairs'})
+            chk.ok('C17.3', key, sample={'function': fn, 'latch set iff': '(P1 before & !P1 after & 0x0f) != 0, P1 = get_value '
+                                         'of the state before / after', 'paths': npaths})
     # ---- rule 4
     st = ipf.new_state()
     me = ipf.arg_object(st, 'joy')
